@@ -37,6 +37,10 @@ class Contract:
         # comp_loops: list comprehension ordinal -> loop contract; the comprehension is then executed as the loop
         #   _comp<k> = []; for <target> in <iter>: _comp<k>.append(<elt>)      (needed when <elt> has side effects)
         self.yields = list(kw.pop("yields", []))          # each yielded value `it` satisfies these
+        # how many values a TRUSTED generator yields (`count`); refused on verified contracts (nothing checks it)
+        self.yields_count = list(kw.pop("yields_count", []))
+        if self.yields_count and kw.get("verify", True):
+            raise ValueError(f"{qual}: yields_count is only available on trusted (verify=False) generator summaries")
         self.decreases = kw.pop("decreases", None)
         self.inline = kw.pop("inline", False)             # callers execute the real body instead of the contract
         self.verify = kw.pop("verify", True)              # False: contract is trusted (listed as assumption)
